@@ -26,4 +26,14 @@ CHECKS["C03"] = dict(
     ],
 )
 
+CHECKS["C02"] = dict(
+    pkg="c02", race=True, level="exploration", timeout_quick=600, timeout_thorough=2400,
+    technique="model-based property testing (rapid) of a running Router between a scripted subscriber and publisher; settlement sampled inside Publish; schedule noise at hook points; race detector",
+    level_text="Generated cases (handler behaviour x publisher outcome x handler kind x middleware prefix x 1..6 messages in flight) are run through a real Router whose both ends are scripted, and the observed settlement, handler call count and Publish calls (pointers, order, topic, settlement state during the call) are compared with a model computed from the case. Exploration over a large but finite-shaped case space with random schedules.",
+    level_note="Trusted: the scripted Pub/Sub (lib.ScriptSub/ScriptPub) and the model in c02_test.go. Settlement during Publish is sampled at the start and end of the call, so an Ack that lands strictly between is seen at the end sample. 20 s liveness bound for settlement.",
+    steps=[
+        dict(name="settlement", run="^TestRouterSettlement$", quick=2000, thorough=64000, shards_thorough=16),
+    ],
+)
+
 NOT_APPLICABLE = {}
